@@ -298,11 +298,29 @@ enum { OP_RESIZE0, OP_RESIZELEN, OP_RESIZEGROW, OP_COPY, OP_ASSIGN_EMPTY, OP_ASS
        OP_F_GET_NULL, OP_F_SET_NULLVAL,
        OP_NMISC };
 
-static int nops_total(void) { return 3 * K + OP_NMISC; }
+static int alias_ops = 1;
+static int nops_total(void) { return 3 * K + OP_NMISC + (alias_ops ? 3 * K : 0); }
+
+/* the key / value object stored inside the table for universe key k (NULL if absent) */
+static var stored_key(var t_, int k) {
+  struct Table* t = t_;
+  for (size_t i = 0; i < t->nslots; i++) if (Table_Key_Hash(t, i) && key_index(Table_Key(t, i)) == k) return Table_Key(t, i);
+  return NULL;
+}
+static var stored_val(var t_, int k) {
+  struct Table* t = t_;
+  for (size_t i = 0; i < t->nslots; i++) if (Table_Key_Hash(t, i) && key_index(Table_Key(t, i)) == k) return Table_Val(t, i);
+  return NULL;
+}
 
 static void opname(int op, char* buf, size_t cap) {
   if (op < 2 * K) { snprintf(buf, cap, "set(k%d,%d)", op / 2, op % 2); return; }
   if (op < 3 * K) { snprintf(buf, cap, "rem(k%d)", op - 2 * K); return; }
+  if (op >= 3 * K + OP_NMISC) {
+    int a = op - 3 * K - OP_NMISC, k = a % K;
+    snprintf(buf, cap, a < K ? "set(A, stored key object of k%d, 1)" : a < 2 * K ? "set(A, k%d, stored value object of another key)" : "rem(A, stored key object of k%d)", k);
+    return;
+  }
   static const char* nm[] = { "resize(0)", "resize(len)", "resize(2len+3)", "A=copy(A)", "A=assign(new,A)", "A=assign(nonempty,A)",
     "B=copy(A)", "assign(B,A)", "assign(A,B)", "del(B)", "set(B,k0,1)", "rem(B,k0)", "swap(A,B)",
     "get(wrong-type key)", "set(wrong-type key)", "set(wrong-type val)", "rem(wrong-type key)", "mem(wrong-type key)", "resize(len-1)",
@@ -363,6 +381,33 @@ static int apply(int op) {
     observable_all(before, sizeof before);
     e = VF_CATCH(rem(TA, keyobj[k]));
     return expect_fail(e, KeyError, KeyError, KeyError, "rem of an absent key", before);
+  }
+  if (op >= 3 * K + OP_NMISC) {
+    /* aliasing: the argument is an object that lives inside the table itself */
+    int a = op - 3 * K - OP_NMISC, k = a % K;
+    if (a < K) {
+      var sk = stored_key(TA, k); if (!sk) return VF_SKIP;
+      lastkind = "set-by-stored-key";
+      e = VF_CATCH(set(TA, sk, valobj[1]));
+      if (e) { vf_violation(L("raises"), NULL, "set through the stored key object raised %s", vf_exc_name(e)); return VF_BAD; }
+      MA.val[k] = 1;
+      return VF_OK;
+    } else if (a < 2 * K) {
+      int other = -1; for (int q = 0; q < K; q++) if (q != k && MA.present[q]) { other = q; break; }
+      if (other < 0) return VF_SKIP;
+      lastkind = MA.present[k] ? "set-existing-with-stored-value" : "set-new-with-stored-value";
+      e = VF_CATCH(set(TA, keyobj[k], stored_val(TA, other)));
+      if (e) { vf_violation(L("raises"), NULL, "set with a value object stored in the same table raised %s", vf_exc_name(e)); return VF_BAD; }
+      MA.present[k] = 1; MA.val[k] = MA.val[other];
+      return VF_OK;
+    } else {
+      var sk = stored_key(TA, k); if (!sk) return VF_SKIP;
+      lastkind = "rem-by-stored-key";
+      e = VF_CATCH(rem(TA, sk));
+      if (e) { vf_violation(L("raises"), NULL, "rem through the stored key object raised %s", vf_exc_name(e)); return VF_BAD; }
+      MA.present[k] = 0;
+      return VF_OK;
+    }
   }
   int m = op - 3 * K;
   size_t l = len(TA);
@@ -599,6 +644,7 @@ int main(int argc, char** argv) {
   K = (int)vf_param_i("nkeys", 5);
   if (K > MAXK) K = MAXK;
   two = (int)vf_param_i("two", 0);
+  alias_ops = (int)vf_param_i("alias", 1);
   const char* prop = vf_param("prop", "C02");
   propC05 = strcmp(prop, "C05") == 0;
   propC10 = strcmp(prop, "C10") == 0;
